@@ -61,3 +61,36 @@ End Subgrid.
 Definition sg_matrix_q (rows3 : list (Q * Q * Q * Q)) (s1 s2 s3 o1 o2 o3 : Q) : list (list Q) :=
   map (fun r => let '(a, b, c, t) := sg_row Q Qplus Qmult r s1 s2 s3 o1 o2 o3 in map Qred [a; b; c; t]) rows3
   ++ [[0; 0; 0; 1]%Q].
+
+(* ------------------------------------------------------------------ field of view
+   _slicer(corner, size, spacing)[axis] = slice(corner, size + corner, spacing) applied to an axis of
+   length n: the image indices it selects *)
+Definition slice_len (n start stop step : Z) : Z :=
+  let hi := Z.min stop n in if hi <=? start then 0 else (hi - start + step - 1) / step.
+Definition slice_indices (n start stop step : Z) : list Z :=
+  map (fun k => start + Z.of_nat k * step) (seq 0 (Z.to_nat (slice_len n start stop step))).
+
+(* (data >= 0).sum() of data[::s0, ::s1, ::s2], data C-contiguous with dims n0 n1 n2 *)
+Definition count_sub (data : list Z) (n0 n1 n2 s0 s1 s2 : Z) : Z :=
+  let xs := slice_indices n0 0 n0 s0 in let ys := slice_indices n1 0 n1 s1 in let zs := slice_indices n2 0 n2 s2 in
+  fold_left (fun acc x => fold_left (fun acc y => fold_left (fun acc z =>
+     if 0 <=? nth (Z.to_nat ((x * n1 + y) * n2 + z)) data (-1) then acc + 1 else acc) zs acc) ys acc) xs 0.
+
+(* ideal_spacing: ddims = dims / spacing compared as exact rationals (a/b >= c/d <-> a*d >= c*b, b,d > 0) *)
+Definition pick_dir (n0 n1 n2 s0 s1 s2 : Z) : Z :=
+  if (n1 * s0 <=? n0 * s1) && (n2 * s0 <=? n0 * s2) then 0
+  else if (n0 * s1 <? n1 * s0) && (n2 * s1 <=? n1 * s2) then 1 else 2.
+
+Fixpoint ideal_spacing_loop (fuel : nat) (data : list Z) (n0 n1 n2 npoints s0 s1 s2 : Z) : option (Z * Z * Z) :=
+  if count_sub data n0 n1 n2 s0 s1 s2 <=? npoints then Some (s0, s1, s2)
+  else match fuel with
+       | O => None
+       | S f => let d := pick_dir n0 n1 n2 s0 s1 s2 in
+                if d =? 0 then ideal_spacing_loop f data n0 n1 n2 npoints (s0 + 1) s1 s2
+                else if d =? 1 then ideal_spacing_loop f data n0 n1 n2 npoints s0 (s1 + 1) s2
+                else ideal_spacing_loop f data n0 n1 n2 npoints s0 s1 (s2 + 1)
+       end.
+
+(* set_fov: the block of image voxel indices per axis (the SAME slices give _from_data and, through
+   subgrid_affine, _from_affine) *)
+Definition fov_axis (n corner size spacing : Z) : list Z := slice_indices n corner (size + corner) spacing.
